@@ -185,6 +185,23 @@ def binop(I, st, op, a, b, inplace=False):
             yield st, a + b
             return
         if op == "Mod":
+            from . import bytesmodel
+
+            if a == "%ds" and is_z3(b):
+                yield st, bytesmodel.SymFmt(b)
+                return
+            def _c(x):
+                if isinstance(x, (int, str, bool)):
+                    return True
+                if isinstance(x, tuple):
+                    return all(_c(y) for y in x)
+                return False
+            if _c(b):
+                try:
+                    yield st, a % b
+                except Exception as e:  # noqa
+                    yield st, exc(type(e).__name__, str(e))
+                return
             yield st, Opaque("str % args")
             return
         if op == "Mult" and isinstance(b, int):
